@@ -358,7 +358,7 @@ func (g *G) varStmt(sc *scope, depth int) []string {
 		rhs = g.ptrExpr(sc, t, depth)
 		v.NonNil = true
 	case KMap:
-		rhs = "make(" + t.Go() + ")"
+		rhs = "make(" + g.mapTypeName(t) + ")"
 		v.NonNil = true
 	default:
 		rhs = g.expr(sc, t, min(depth, 2))
